@@ -394,6 +394,22 @@ pub fn run(ctx: &Ctx, rep: &mut Report) {
         rep.add_space(&format!("histories: every ordered pair of {} {}-slot hands (real, blank-containing, repeated-card) x 5 entry points", hands.len(), n), &acc, t0, "single-threaded call sequences of length two");
     }
 
+    {
+        let al = sub_alphabet(12);
+        let mut items: Vec<Case> = [0u64, 1, 47, 48, 49, MAX_PRODUCT, MAX_PRODUCT + 1, u64::MAX].iter().map(|k| Case::new("find_in_products", &[*k])).collect();
+        for n in [5usize, 6, 7] {
+            let cards: Vec<u32> = (0..n).map(|i| al[1 + i]).collect();
+            let mut blank = cards.clone();
+            blank[n / 2] = 0;
+            for h in [cards, blank, vec![0u32; n]] {
+                for e in ENTRIES {
+                    items.push(Case::w32(&format!("{}.{}", AnyHand::size_name(n), e), &h));
+                }
+            }
+        }
+        super::history2(rep, judge, &items);
+    }
+
     // (3) the public product-search helper, every key
     {
         let t0 = Instant::now();
